@@ -192,6 +192,11 @@ func lookupName(name string, e env) val {
 	if n, err := strconv.ParseInt(name, 0, 64); err == nil { // Go literal syntax: 010 is octal, 0x10 hexadecimal
 		return val{i: int32(n)}
 	}
+	if len(name) >= 3 && name[0] == '\'' { // character literal
+		if r, _, _, err := strconv.UnquoteChar(name[1:len(name)-1], '\''); err == nil {
+			return val{i: r}
+		}
+	}
 	if name == "true" {
 		return val{isBool: true, b: true}
 	}
@@ -318,6 +323,44 @@ func hasConstBinary(n ast.Expr) bool {
 	return false
 }
 
+// hasVarShift reports whether a constant-valued expression contains a shift whose count is not constant.
+func hasVarShift(n ast.Expr) bool {
+	switch x := n.(type) {
+	case *ast.ParenExpr:
+		return hasVarShift(x.X)
+	case *ast.UnaryExpr:
+		return hasVarShift(x.X)
+	case *ast.BinaryExpr:
+		if (x.Op == token.SHL || x.Op == token.SHR) && !isConst(x.Y) {
+			return true
+		}
+		return hasVarShift(x.X) || hasVarShift(x.Y)
+	}
+	return false
+}
+
+// untypedOverVarShift reports whether the expression applies unary minus or a binary operator other than a shift to
+// constant-valued operands of which one contains a shift by a variable count: Go gives the constant the type of the
+// context (int32 here) before shifting, so the arithmetic that follows wraps; goatlang keeps computing in untyped
+// numbers until a typed operand arrives (known finding c05-untyped-arith-over-variable-shift).
+func untypedOverVarShift(n ast.Expr) bool {
+	switch x := n.(type) {
+	case *ast.ParenExpr:
+		return untypedOverVarShift(x.X)
+	case *ast.UnaryExpr:
+		if x.Op == token.SUB && constValued(x.X, false) && hasVarShift(x.X) {
+			return true
+		}
+		return untypedOverVarShift(x.X)
+	case *ast.BinaryExpr:
+		if x.Op != token.SHL && x.Op != token.SHR && constValued(x.X, false) && constValued(x.Y, false) && (hasVarShift(x.X) || hasVarShift(x.Y)) {
+			return true
+		}
+		return untypedOverVarShift(x.X) || untypedOverVarShift(x.Y)
+	}
+	return false
+}
+
 func try(f func() val) (v val, ok bool, why string) {
 	defer func() {
 		if r := recover(); r != nil {
@@ -391,6 +434,8 @@ func alts(x *Expr, goGroup map[*Expr]ast.Expr) []alt {
 
 // ---- case construction ------------------------------------------------------------------------
 
+var bigPool = []int32{2147483647, -2147483648, 123456789, 1013904223, -987654321, 1664525, 46341, -46341, 65537, 99999989}
+
 var intPool = []int32{0, 1, 2, 3, 5, 7, -1, -2, -3, 4, 8, 13, -7, 31, 100, -100, 6, 1 << 20, -(1 << 30), 12}
 
 type Case struct {
@@ -451,6 +496,10 @@ func build(x *Expr, compact bool) (c *Case, nDist, nAlts int, ok bool) {
 	if hasConstBinary(root) {
 		// Go folds constant sub-expressions exactly and rejects their overflow (1<<31 as an int32 operand does not
 		// compile): such expressions are not in the property's domain of int32/bool operands
+		return nil, 0, 0, false
+	}
+	if untypedOverVarShift(root) && ev.KnownOpen("C05", "c05-untyped-arith-over-variable-shift") != nil {
+		ev.R().Class("excluded_by_known_finding:c05-untyped-arith-over-variable-shift")
 		return nil, 0, 0, false
 	}
 	// Go's grouping of every parenthesised group (parsed separately: parentheses make it independent)
@@ -546,6 +595,33 @@ func build(x *Expr, compact bool) (c *Case, nDist, nAlts int, ok bool) {
 		}
 		if allDone {
 			break
+		}
+	}
+	if len(c.Vals) > 0 && (strings.Contains(text, "*") || strings.Contains(text, "<<")) {
+		// one more valuation with operands of full width: products and shifted values that leave the 32-bit range
+		// (and the 53 bits a float64 holds exactly) must wrap as Go's int32 does
+		e := env{}
+		m := map[string]any{}
+		hh := h ^ 0xb16b00b5
+		for _, n := range intNames {
+			hh = hh*6364136223846793005 + 1442695040888963407
+			if used[n] {
+				v := bigPool[(hh>>33)%uint64(len(bigPool))]
+				e[n] = val{i: v}
+				m[n] = v
+			}
+		}
+		for _, n := range boolNames {
+			hh = hh*6364136223846793005 + 1442695040888963407
+			if used[n] {
+				v := (hh>>33)%2 == 0
+				e[n] = val{isBool: true, b: v}
+				m[n] = v
+			}
+		}
+		if want, wok, _ := try(func() val { return evalGo(root, e) }); wok && !seenVal[fmt.Sprint(m)] {
+			c.Vals = append(c.Vals, m)
+			c.Want = append(c.Want, want.String())
 		}
 	}
 	if len(c.Vals) == 0 {
@@ -1042,7 +1118,7 @@ func genExpr(rt *rapid.T, nOps int, depth int, ni, nb *int) *Expr {
 			*nb++
 		case kind == 3:
 			// literals in every spelling, bare, with a prefix operator, and doubly negated
-			lit := rapid.SampledFrom([]string{"0", "1", "2", "3", "5", "8", "31", "010", "017", "0x10", "0x1f", "0x7f"}).Draw(rt, "lit")
+			lit := rapid.SampledFrom([]string{"0", "1", "2", "3", "5", "8", "31", "010", "017", "0x10", "0x1f", "0x7f", "'a'", "'0'", "'\\n'"}).Draw(rt, "lit")
 			switch rapid.IntRange(0, 5).Draw(rt, "litform") {
 			case 0:
 				x.Atoms = append(x.Atoms, Atom{Prefix: "-", Name: lit})
